@@ -24,7 +24,7 @@ CLAIMS["C20"] = {
     "technique": "static analysis: who-may-write enumeration over object_t.uid/.euid in all units, guard dominance (edge atoms), master-approval gate reachability, who-may-call on get_empty_object, freshness of the euid gate (no LPC-running call between the last euid test and the creation, master-only hooks reported undecided), who-may-write on the name of shared uid records with a first-load guard on the two renaming setters",
     "text": "Every store to uid/euid anywhere in the driver (plus bulk writes over an object_t) is enumerated and each must be an allow-listed site meeting its dominating "
             "condition (seteuid only under MASTER_APPROVED(valid_seteuid) or to 0 on the caller; export_uid only from a non-zero euid onto a zero-euid target; creation-time uid only after the creator_file apply). "
-            "Object creation (get_empty_object/compile_file/load_binary) is shown unreachable without crossing the euid gate on every CFG path. Universal over sites and paths; the data-dependent backbone branch is not decided. The euid test is repeated after any call that can run LPC code before the object is created (clone_object() tested only before loading the blueprint: found by audit, fixed). A uid record that objects point at is never renamed after the first load of the master object.",
+            "Object creation (get_empty_object/compile_file/load_binary) is shown unreachable without crossing the euid gate on every CFG path. Universal over sites and paths; the data-dependent backbone branch is not decided. The euid test is repeated after any call that can run LPC code before the object is created (clone_object() tested only before loading the blueprint: found by audit, fixed). A uid record that objects point at is never renamed after the first load of the master object. The file-scope pointers to the well-known uid records are cleared where the records are freed in bulk (C20-e).",
     "design_ref": "DESIGN.md §5 C20",
 }
 
@@ -32,7 +32,7 @@ CLAIMS["C05"] = {
     "technique": "static analysis: typestate dataflow over error_context_t (save/setjmp/restore/pop) with call-graph may_raise summaries, field-set sibling agreement, dominance and constant propagation in error_handler, restore wrappers recognised from the program (every path restores the context parameter), guard dominance on the unwind count, stack-effect abstract interpretation of every efun, must-consume path analysis of the apply family",
     "text": "All users of the error-recovery API are enumerated from the call graph; for each, the typestate automaton is run over the CFG with every call classified by an inter-procedural may-raise summary: "
             "no raising call while the context is registered but its jmp_buf unarmed, restore_context first on every recovery branch, pop_context on every exit, no re-raise into the same recovery point. "
-            "save/restore and push/pop field sets must agree and pop_control_stack must restore each saved register from its own field on every path (recovery pops a single frame), error_handler must reset its guards before every longjmp. Decides the recovery mechanism on all paths. Also decided: the value stack is unwound by a count that cannot be negative and protected-call wrappers unwind to the caller's level instead of popping the original argument count on the recovery branch (the callee may have dropped arguments: found by replay, fixed); every member of the apply family consumes its arguments on every return; every efun leaves the stack at its declared depth; the command-giver stack is not held across a raise. error_handler() drops a pending `...` expansion count before any LPC code runs again (found by replay, fixed). Values computed by the recovered evaluation are not decided.",
+            "save/restore and push/pop field sets must agree and pop_control_stack must restore each saved register from its own field on every path (recovery pops a single frame), error_handler must reset its guards before every longjmp. Decides the recovery mechanism on all paths. Also decided: the value stack is unwound by a count that cannot be negative and protected-call wrappers unwind to the caller's level instead of popping the original argument count on the recovery branch (the callee may have dropped arguments: found by replay, fixed); every member of the apply family consumes its arguments on every return; every efun leaves the stack at its declared depth; the command-giver stack is not held across a raise. error_handler() drops a pending `...` expansion count before any LPC code runs again (found by replay, fixed). Values computed by the recovered evaluation are not decided. Clean-up callbacks installed in value-stack slots, which run after restore_context() has restored the registers, store to none of those registers (C05-l).",
     "design_ref": "DESIGN.md §5 C05",
 }
 
@@ -65,7 +65,7 @@ CLAIMS["C13"] = {
     "technique": "static analysis: field-cursor bound inference (max over guarded increments and constant stores vs declared array extent), per-iteration longest-path store count in copy_chars vs read-budget divisors, append-destination rule, guard provenance of the command-available flag and of any bulk copy that bypasses the telnet state machine, must-leave analysis of the transient telnet states, store-on-every-path of the data state's default branch, initialisation dominance for fixed-offset reads of the sub-negotiation buffer, must-pass-through of the pending-command test before the input discard, forward dataflow with edge refinement on the ordering of the two input-buffer cursors",
     "text": "Decides the memory clauses of input framing for every byte stream at once: cursor fields indexing fixed arrays of the connection record cannot exceed the last valid index at any use; "
             "copy_chars' worst-case expansion per input byte (longest acyclic iteration path) is covered by every telnet read budget and the scratch buffers match the text buffer; new input is appended at text_end. "
-            "Two structural necessary conditions of split-independence are decided: CMD_IN_BUF is raised only on the result of the shared buffer scan cmd_in_buf(), and input bytes bypass the per-byte state machine only under a test of the complete state word. Independence of delivered lines from packet boundaries in general and backspace editing are behavioural and not decided; text_end arithmetic is reported as undecided. Also decided: each after-IAC state assigns ip->state on every path through its case (so a two-byte command never swallows the next data byte), the data state's default branch stores a byte on every path, fixed-offset reads of sb_buf are dominated by the clear of its unused tail, and the over-long-line discard is reached only through cmd_in_buf() unless the bytes were already taken off the socket. text_end is lowered to a constant only where text_start is known to be 0.",
+            "Two structural necessary conditions of split-independence are decided: CMD_IN_BUF is raised only on the result of the shared buffer scan cmd_in_buf(), and input bytes bypass the per-byte state machine only under a test of the complete state word. Independence of delivered lines from packet boundaries in general and backspace editing are behavioural and not decided; text_end arithmetic is reported as undecided. Also decided: each after-IAC state assigns ip->state on every path through its case (so a two-byte command never swallows the next data byte), the data state's default branch stores a byte on every path, fixed-offset reads of sb_buf are dominated by the clear of its unused tail, and the over-long-line discard is reached only through cmd_in_buf() unless the bytes were already taken off the socket. text_end is lowered to a constant only where text_start is known to be 0. Console input the feeder counts as consumed cannot be refused by the function that stores it: the callee's limit lies above the room the feeder cut the piece to (C13-l).",
     "design_ref": "DESIGN.md §5 C13",
 }
 
@@ -113,7 +113,7 @@ CLAIMS["C08"] = {
     "technique": "static analysis: per-opcode region analysis of the interpreter's fetch cases (destructed-object scrub), must-pass-through of every unlink step on all paths of destruct_object, precondition dominance in move_object, link-store-after-hook reachability, publish-before-destructible ordering in load_object/clone_object, stale-pointer typestate over object pointers for targets of apply()/apply_low() and for next_all/next_inv link reads across LPC callbacks (saved-successor idiom checked by a forward search to the first use), round-cursor arithmetic of the heart-beat table on removal (shared with C11)",
     "text": "Decides the destruction/visibility mechanism on all paths: each interpreter case that copies a stored value to the stack substitutes 0 for destructed objects (other copying cases are enumerated and reviewed); "
             "destruct_object cannot set O_DESTRUCTED without having passed the stack scrub, inventory unlink, name-hash and object-list removal, living-name, sentence, input_to, heart-beat steps and emptied its inventory, and disconnects afterwards; "
-            "move_object relinks only after the containment-cycle walk and the destination-alive test. no inventory link is written after a re-entrant hook (destruct_object's unlink is the reviewed exception, constrained by the re-read rule); a new object is entered into the name table before anything that can destruct it runs. The forest invariant over operation histories is not decided. A local object pointer is handed to apply()/apply_low() only after a liveness test since the last LPC-running call (safe_apply is shown to refuse destructed targets itself); loops over obj_list and inventories do not follow a link out of an object that a callback may have destructed (clean_up() in a self-destructed object and the shout() walk were found, replayed and fixed). Walks that continue after a callback merely moved the object are reported undecided. A removal from the heart-beat table during a running round lowers the round length for every entry inside the round, so the round never walks onto the stale copy of a destructed object's entry.",
+            "move_object relinks only after the containment-cycle walk and the destination-alive test. no inventory link is written after a re-entrant hook (destruct_object's unlink is the reviewed exception, constrained by the re-read rule); a new object is entered into the name table before anything that can destruct it runs. The forest invariant over operation histories is not decided. A local object pointer is handed to apply()/apply_low() only after a liveness test since the last LPC-running call (safe_apply is shown to refuse destructed targets itself); loops over obj_list and inventories do not follow a link out of an object that a callback may have destructed (clean_up() in a self-destructed object and the shout() walk were found, replayed and fixed). Walks that continue after a callback merely moved the object are reported undecided. A removal from the heart-beat table during a running round lowers the round length for every entry inside the round, so the round never walks onto the stale copy of a destructed object's entry. An object read out of a value (sv.u.ob) is tested for O_DESTRUCTED before apply()/apply_low() calls into it (C08-k).",
     "design_ref": "DESIGN.md §5 C08",
 }
 
@@ -122,7 +122,7 @@ CLAIMS["C16"] = {
     "text": "Decides the structural clauses: a save can only replace the final file by rename() of a fully written, successfully closed temporary derived from the approved path, failures remove the temporary, the stream is closed on every exit and nothing can leave by error() while it is open (except what a dry run already executed); "
             "every recursion cycle over the nesting of a value is bounded by a counter test or confined behind the bounded size pass, and the shared nesting counter is cleared when a compound restore starts; string readers test for the end of the text in every scanning loop; integers are accumulated and printed at 64 bits with an unsigned magnitude; every character the readers interpret is escaped by the writer, the byte behind a backslash is stored without being interpreted again, a parser that reports success has written its output value, a pair inserted while the hash table doubles is linked into the bucket of the new table, and floats are printed with a format that keeps them floats, identically in both passes; "
             "the size pass and the write pass of the serializer handle the same tags and never write more constant/delimiter bytes than were accounted, and callers allocate exactly that size; "
-            "the no-clear restore stores into the variable only after a successful parse; every walker of the variable layout (save, restore, lookup) accounts for a program's inherited subtree before its own variables. Round-trip equality of values and robustness of the restore parser on arbitrary text are behavioural and not decided.",
+            "the no-clear restore stores into the variable only after a successful parse; every walker of the variable layout (save, restore, lookup) accounts for a program's inherited subtree before its own variables. Round-trip equality of values and robustness of the restore parser on arbitrary text are behavioural and not decided. A refusal of the integer reader that depends on the accumulated magnitude uses a bound of at least 2^63, so every integer the writer prints is read back (C16-o).",
     "design_ref": "DESIGN.md §5 C16",
 }
 
@@ -138,7 +138,7 @@ CLAIMS["C06"] = {
     "technique": "static analysis: ownership table over struct layouts with must-pass-through of each owning field's release in its deallocator (bypass only via the field's NULL test), classification of every pointer field of owner records, guardedness of every increment of a sub-32-bit reference counter, avoid-set reachability for partial-release call sites (setjmp recovery edges replaced by their raising origins), width check of every reference counter, leak-on-error typestate for values owned only by a C local across an unprotected LPC callback (fresh container results and hand-counted references; higher-order callees resolved at the call site), who-may-share check for arrays that are dismantled in place",
     "text": "Decides two structural necessary conditions of exact counting: every release function (sentence, pending call, function pointer, object, connection, array/class/mapping/object variables) releases each owning field on every path before giving the container up, and every pointer field of those records is classified owning/not-owning; "
             "every increment of a 16-bit reference counter is enumerated - strings saturate, eight counters do not (recorded findings keyed by declaration, so a new narrow counter or a de-saturated one is reported). "
-            "The partial release free_called_call() (which keeps the argument array) is reached only after the array was handed over or found absent, on normal and recovery paths. That counts return to their previous values after arbitrary evaluation sequences is behavioural and not decided. Every reference counter is at least 32 bits wide (a saturating 16-bit counter is reported as a leak, a plain one as a premature free). A container result or hand-taken reference that only a C local owns is anchored, handed over or released before the function runs LPC code outside a catch barrier (callbacks reached only through master or snoop hooks are reported undecided). An array that is taken apart with free_empty_array() (items moved out, block released) has no second holder anywhere in the driver.",
+            "The partial release free_called_call() (which keeps the argument array) is reached only after the array was handed over or found absent, on normal and recovery paths. That counts return to their previous values after arbitrary evaluation sequences is behavioural and not decided. Every reference counter is at least 32 bits wide (a saturating 16-bit counter is reported as a leak, a plain one as a premature free). A container result or hand-taken reference that only a C local owns is anchored, handed over or released before the function runs LPC code outside a catch barrier (callbacks reached only through master or snoop hooks are reported undecided). An array that is taken apart with free_empty_array() (items moved out, block released) has no second holder anywhere in the driver. Every free_node() site has released the node's key and value on the way; a release conditional on the value's tag covers strings and all counted types (C06-i).",
     "design_ref": "DESIGN.md §5 C06",
 }
 
